@@ -52,15 +52,18 @@ Notation norm_leaf := (norm_leaf round32 widen32).
 
 Lemma norm_float_stable b w :
   round32 b = Some w ->
-  norm_leaf TNumber (Some BFloat) false (VFloat (widen32 (w mod 2 ^ 32))) = VFloat (widen32 (w mod 2 ^ 32)).
+  norm_leaf TNumber (Some BFloat) 0%nat (VFloat (widen32 (w mod 2 ^ 32))) = VFloat (widen32 (w mod 2 ^ 32)).
 Proof.
   intros _. cbn [Model.norm_leaf to_double].
   assert (R : 0 <= w mod 2 ^ 32 < 2 ^ 32) by (apply Z.mod_pos_bound; lia).
   rewrite (round_widen _ R). rewrite Z.mod_mod by lia. reflexivity.
 Qed.
 
-Lemma norm_leaf_idem t f nt v : norm_leaf t f nt (norm_leaf t f nt v) = norm_leaf t f nt v.
+(* nt <= 1: single-byte code units (utf-8 / ascii / latin-1); for wider units the padding must be
+   a whole number of units, see TextProofs.v *)
+Lemma norm_leaf_idem t f nt v : (nt <= 1)%nat -> norm_leaf t f nt (norm_leaf t f nt v) = norm_leaf t f nt v.
 Proof.
+  intros Hnt.
   assert (Hnum : forall t, t = TNumber \/ t = TInteger \/ t = TBoolean ->
                  norm_leaf t f nt (norm_leaf t f nt v) = norm_leaf t f nt v).
   { intros t' Ht.
@@ -92,25 +95,34 @@ Proof.
   (* TString *)
   cbn [Model.norm_leaf].
   destruct f as [[i| | | | |n|n|n]|]; auto; destruct v; auto.
-  - destruct nt; [rewrite find_nul_idem|]; reflexivity.
-  - destruct nt.
+  - destruct nt as [|[|n']]; [reflexivity | cbn [cut]; rewrite find_nul_idem; reflexivity | lia].
+  - destruct nt as [|[|n']]; [| |lia]; cbn [cut].
+    + rewrite pad_to_idem. reflexivity.
     + rewrite (pad_to_short n (find_nul (pad_to n s))).
       * rewrite find_nul_app_zeros. reflexivity.
       * pose proof (find_nul_length (pad_to n s)). rewrite pad_to_length_nat in H. lia.
-    + rewrite pad_to_idem. reflexivity.
   - set (k := Nat.min (Nat.min (length s) (Z.to_nat (n - 1))) 255).
-    destruct nt.
+    destruct nt as [|[|n']]; [| |lia]; cbn [cut].
+    + assert (Hk' : length (firstn k s) = k) by (rewrite firstn_length; subst k; lia).
+      rewrite Hk'.
+      replace (Nat.min (Nat.min k (Z.to_nat (n - 1))) 255) with k by (subst k; lia).
+      rewrite <- Hk' at 1. rewrite firstn_all. reflexivity.
     + pose proof (find_nul_length (firstn k s)) as Hl.
       pose proof (firstn_le_length k s) as Hk.
       assert (Hk' : (length (firstn k s) <= k)%nat) by (rewrite firstn_length; lia).
       set (u := find_nul (firstn k s)) in *.
       replace (Nat.min (Nat.min (length u) (Z.to_nat (n - 1))) 255) with (length u) by (subst k; lia).
       rewrite firstn_all. subst u. rewrite find_nul_idem. reflexivity.
-    + assert (Hk' : length (firstn k s) = k) by (rewrite firstn_length; subst k; lia).
-      rewrite Hk'.
-      replace (Nat.min (Nat.min k (Z.to_nat (n - 1))) 255) with k by (subst k; lia).
-      rewrite <- Hk' at 1. rewrite firstn_all. reflexivity.
 Qed.
+
+(* every string leaf uses single-byte code units *)
+Fixpoint simple_units (s : schema) : Prop :=
+  match s with
+  | SLeaf _ _ nt => (nt <= 1)%nat
+  | SArr _ it => simple_units it
+  | SObj _ ps => (fix go (ps : list prop) : Prop :=
+                    match ps with [] => True | p :: r => simple_units (snd p) /\ go r end) ps
+  end.
 
 (* ------------------------------------------------------------ objects *)
 
@@ -186,24 +198,24 @@ Qed.
 
 (* norm is idempotent: decode(encode(decode(encode v))) = decode(encode v) at the level of the
    specification; with struct_roundtrip this gives the "second generation" stability *)
-Theorem norm_idempotent s : nodup_keys s -> forall v, norm s (norm s v) = norm s v.
+Theorem norm_idempotent s : nodup_keys s -> simple_units s -> forall v, norm s (norm s v) = norm s v.
 Proof.
-  induction s as [t f nt | m it IH | req ps IH] using schema_ind'; intros Hnd v.
-  - apply norm_leaf_idem.
+  induction s as [t f nt | m it IH | req ps IH] using schema_ind'; intros Hnd Hu v.
+  - apply norm_leaf_idem. exact Hu.
   - destruct v; auto. cbn [Model.norm]. rewrite map_map. f_equal.
-    apply map_ext. intros x. apply IH. exact Hnd.
+    apply map_ext. intros x. apply IH; [exact Hnd | exact Hu].
   - destruct v; auto. rewrite !norm_obj_eq. f_equal.
     destruct Hnd as [Hnd Hsub].
     apply norm_fields_idem; auto.
     clear Hnd. induction IH as [|p r Hp _ IHr]; constructor.
-    + intros x. apply Hp. apply Hsub.
-    + apply IHr. apply Hsub.
+    + intros x. apply Hp; [apply Hsub | apply Hu].
+    + apply IHr; [apply Hsub | apply Hu].
 Qed.
 
 End Norm.
 
 Example norm_idempotent_ex :
-  nodup_keys (modify ex_schema) /\
+  nodup_keys (modify ex_schema) /\ simple_units (modify ex_schema) /\
   norm round32_impl widen32_impl (modify ex_schema) (norm round32_impl widen32_impl (modify ex_schema) ex_value)
   = norm round32_impl widen32_impl (modify ex_schema) ex_value /\
   (* the Section hypothesis holds for the executable conversions on samples, subnormals included *)
